@@ -5,7 +5,7 @@ use crate::engine::tape::{Tape, fnv};
 use crate::model::data::*;
 use crate::model::value::{V, pair, readback, same, text};
 use garnish_lang_simple_data::{BasicGarnishData, DataError, NoOpCompanion, ReallocationStrategy, SimpleNumber, StorageSettings, symbol_value};
-use garnish_lang_traits::Instruction;
+use garnish_lang_traits::{GarnishData, Instruction};
 
 pub struct C15Check;
 pub static C15: C15Check = C15Check;
@@ -110,6 +110,57 @@ fn basic_with(initial: usize, strat: ReallocationStrategy) -> BasicGarnishData<(
     BasicGarnishData::new_with_settings(s(), s(), s(), s(), s(), s(), NoOpCompanion::new()).expect("new_with_settings")
 }
 
+/// values for the object interface: the constants, every value kind, and lists / pairs that hold equal-looking items
+pub fn object_pool() -> Vec<V> {
+    let mut p = constant_pool();
+    p.extend(crate::checks::c10::truth_values());
+    p.extend(crate::checks::c11::small_pool());
+    let one = || V::Int(1);
+    let onef = || V::Float(1.0);
+    p.push(V::List(vec![one(), onef()]));
+    p.push(V::List(vec![onef(), one(), onef()]));
+    p.push(V::List(vec![V::Float(0.0), V::Float(-0.0), V::Int(0)]));
+    p.push(V::List(vec![pair(V::Sym(7), one()), pair(V::Sym(7), onef())]));
+    p.push(pair(one(), onef()));
+    p.push(V::Concat(Box::new(one()), Box::new(onef())));
+    p.push(V::List(vec![text("é"), text("é"), text("e")]));
+    p.push(V::List(vec![V::List(vec![one()]), V::List(vec![onef()])]));
+    p.push(text("héllo wörld 漢字"));
+    p.push(V::List((0..40).map(|k| if k % 2 == 0 { V::Int(k) } else { V::Float(k as f64) }).collect()));
+    p
+}
+
+/// the same value as a BasicObject (None for kinds the harness's value model cannot express there)
+pub fn to_basic_object(v: &V) -> Option<garnish_lang_simple_data::BasicObject> {
+    use crate::model::value::SymPart;
+    use garnish_lang_simple_data::BasicObject as O;
+    use garnish_lang_traits::SymbolListPart;
+    let b = |x: &V| to_basic_object(x).map(Box::new);
+    Some(match v {
+        V::Unit => O::Unit,
+        V::True => O::True,
+        V::False => O::False,
+        V::Int(i) => O::Number(SimpleNumber::Integer(*i)),
+        V::Float(f) => O::Number(SimpleNumber::Float(*f)),
+        V::Char(c) => O::Char(*c),
+        V::Byte(x) => O::Byte(*x),
+        V::Sym(s) => O::Symbol(*s),
+        V::SymList(parts) => O::SymbolList(parts.iter().map(|p| match p { SymPart::Sym(s) => SymbolListPart::Symbol(*s), SymPart::Num(n) => SymbolListPart::Number(SimpleNumber::Integer(*n)) }).collect()),
+        V::Text(t) => O::CharList(t.iter().collect()),
+        V::Bytes(x) => O::ByteList(x.clone()),
+        V::Pair(l, r) => O::Pair(b(l)?, b(r)?),
+        V::Range(l, r) => O::Range(b(l)?, b(r)?),
+        V::Slice(l, r) => O::Slice(b(l)?, b(r)?),
+        V::Partial(l, r) => O::Partial(b(l)?, b(r)?),
+        V::Concat(l, r) => O::Concatenation(b(l)?, b(r)?),
+        V::List(items) => O::List(items.iter().map(|x| to_basic_object(x).map(Box::new)).collect::<Option<Vec<_>>>()?),
+        V::Expr(n) => O::Expression(*n),
+        V::External(n) => O::External(*n),
+        V::Type(t) => O::Type(*t),
+        V::Unreadable(_) => return None,
+    })
+}
+
 /// operations that make a new value out of values the store already holds (phase derived-values)
 #[derive(Clone, Copy, Debug, PartialEq)]
 pub enum DOp {
@@ -122,6 +173,8 @@ pub enum DOp {
     MergeOldestNewest,
     /// merge_to_symbol_list(newest symbol or symbol list, oldest symbol)
     MergeNewestOldest,
+    /// merge_to_symbol_list(oldest symbol list, newest symbol list) — two lists, usually of different lengths
+    MergeListList,
     /// add_concatenation(newest value, oldest value)
     Concatenation,
     /// add_pair(oldest value, newest value)
@@ -129,7 +182,7 @@ pub enum DOp {
     /// add_range over the two newest numbers, then add_slice(newest text, that range)
     Slice,
 }
-pub const DOPS: [DOp; 9] = [DOp::Symbol, DOp::Number, DOp::Text, DOp::MergeNewestNewest, DOp::MergeOldestNewest, DOp::MergeNewestOldest, DOp::Concatenation, DOp::Pair, DOp::Slice];
+pub const DOPS: [DOp; 10] = [DOp::Symbol, DOp::Number, DOp::Text, DOp::MergeNewestNewest, DOp::MergeOldestNewest, DOp::MergeNewestOldest, DOp::MergeListList, DOp::Concatenation, DOp::Pair, DOp::Slice];
 
 fn derived_count(max: usize) -> u64 {
     (1..=max).map(|l| (DOPS.len() as u64).pow(l as u32)).sum()
@@ -185,6 +238,17 @@ fn run_derived<D: GD>(d: &mut D, ops: &[DOp], label: &str, ctx: &mut CaseCtx) ->
                     let left = if *op == DOp::MergeOldestNewest { oldest(&values, &symish) } else { newest(&values, &symish) };
                     let right = if *op == DOp::MergeNewestOldest { oldest(&values, &is_sym) } else { newest(&values, &is_sym) };
                     match (left, right) {
+                        (Some((la, lv)), Some((ra, rv))) => {
+                            let mut p = parts(&lv);
+                            p.extend(parts(&rv));
+                            Some((d.merge_to_symbol_list(la, ra).map_err(e)?, V::SymList(p)))
+                        }
+                        _ => None,
+                    }
+                }
+                DOp::MergeListList => {
+                    let is_list = |v: &V| matches!(v, V::SymList(_));
+                    match (oldest(&values, &is_list), newest(&values, &is_list)) {
                         (Some((la, lv)), Some((ra, rv))) => {
                             let mut p = parts(&lv);
                             p.extend(parts(&rv));
@@ -547,7 +611,7 @@ impl Check for C15Check {
          phase random: histories of 50..400 operations on SimpleGarnishData and on BasicGarnishData with default and with tape-chosen per-table settings. \
          Oracle: an abstract model of independent growable tables; after EVERY operation every address ever returned reads back (type and content through the getters) as in the model, the instruction and jump tables match index by index, registers match in order (frame markers accounted for), the current value and symbol names match; pops return what the model says. \
          On SimpleGarnishData additionally: adding a bit-identical constant again returns the same address, a different constant a different address. \
-         Phase constant-pairs: every ordered pair (A, B) of a pool of constants of every interned kind (numbers incl. the same value as integer and float, the same small number as number / char / byte / symbol / expression / external, types, texts and byte lists of lengths around 8..256 that differ only in their last, first or middle item) added as A, B, A, B to a fresh object of either implementation: all four read back as added; on SimpleGarnishData equal constants share one address, different ones never do. Phase derived-values: every history of up to 5 (thorough 6) operations out of 9 that store a symbol, a number or a text or make a new value from stored ones (merge_to_symbol_list with the newest / oldest symbol list and symbol, add_concatenation, add_pair, add_range + add_slice): after every operation every address handed out earlier reads back unchanged, on both implementations. Phase large-stores: 100 .. 5000 (thorough 70000) distinct constants of one kind (integers, floats, texts, byte lists, symbols) or a mix in one object, then every one of them added again forwards and backwards: on SimpleGarnishData each comes back at its first address and no two share one, on both implementations they read back as added. Non-trivial = a history in which at least two different tables grew while others held data; distinct = distinct (history, configuration)."
+         Phase constant-pairs: every ordered pair (A, B) of a pool of constants of every interned kind (numbers incl. the same value as integer and float, the same small number as number / char / byte / symbol / expression / external, types, texts and byte lists of lengths around 8..256 that differ only in their last, first or middle item) added as A, B, A, B to a fresh object of either implementation: all four read back as added; on SimpleGarnishData equal constants share one address, different ones never do. Phase objects: every value of the constant pool, of every value kind and of a set of lists / pairs holding equal-looking items (1 and 1.0, 0.0 and -0.0, equal texts) handed to BasicGarnishData::push_object_to_data_block as one BasicObject, between two other values: it reads back as that value and the neighbours are untouched; texts and byte lists also through add_string / add_byte_slice. Phase derived-values: every history of up to 5 (thorough 6) operations out of 10 that store a symbol, a number or a text or make a new value from stored ones (merge_to_symbol_list with the newest / oldest symbol list and symbol, add_concatenation, add_pair, add_range + add_slice): after every operation every address handed out earlier reads back unchanged, on both implementations. Phase large-stores: 100 .. 5000 (thorough 70000) distinct constants of one kind (integers, floats, texts, byte lists, symbols) or a mix in one object, then every one of them added again forwards and backwards: on SimpleGarnishData each comes back at its first address and no two share one, on both implementations they read back as added. Non-trivial = a history in which at least two different tables grew while others held data; distinct = distinct (history, configuration)."
             .to_string()
     }
     fn assumptions(&self) -> Vec<String> {
@@ -564,6 +628,7 @@ impl Check for C15Check {
             Phase::exhaustive("longer-histories-tight-configs", 14u64.pow(h as u32 + 1) * 2).with_chunk(4096),
             Phase::random("random-long-histories", tier.pick(6_000, 150_000), 900).with_min_tape(120).with_chunk(64),
             Phase::exhaustive("constant-pairs", { let n = constant_pool().len() as u64; n * n }).with_chunk(128),
+            Phase::exhaustive("objects", object_pool().len() as u64).with_chunk(8),
             Phase::exhaustive("derived-values", derived_count(tier.pick(5, 6))).with_chunk(1024),
             Phase::exhaustive("large-stores", (LARGE_KINDS.len() * tier.pick(LARGE_SIZES_QUICK.len(), LARGE_SIZES.len())) as u64).with_chunk(1).with_deadline_ms(60_000),
         ]
@@ -656,6 +721,70 @@ impl Check for C15Check {
                 }
             }
             (4, Input::Index(i)) => {
+                // BasicGarnishData's object interface: a whole value handed over as one BasicObject reads back as that value
+                let pool = object_pool();
+                let v = &pool[*i as usize];
+                ctx.render(|| format!("push_object_to_data_block({})", v));
+                ctx.class("object");
+                ctx.nontrivial(fnv(format!("obj{}", i).as_bytes()));
+                let obj = match to_basic_object(v) {
+                    Some(o) => o,
+                    None => {
+                        ctx.class("object-kind-not-expressible");
+                        return;
+                    }
+                };
+                // texts and byte lists also through the helpers add_string / add_byte_slice
+                if let V::Text(t) = v {
+                    let s: String = t.iter().collect();
+                    let mut h = new_basic();
+                    match guard("store", || h.add_string(&s)) {
+                        Ok(Ok(a)) => {
+                            let _ = h.add_number(SimpleNumber::Integer(5));
+                            let got = readback(&h, a);
+                            if !same(&got, v) {
+                                ctx.fail("add_string-reads-back-differently".to_string(), format!("add_string({:?}) at {} reads back as {}", s, a, got));
+                            }
+                        }
+                        Ok(Err(e)) => ctx.fail("add_string-fails".to_string(), format!("add_string({:?}): {}", s, e)),
+                        Err(p) => ctx.fail(format!("store-panic@{}", p.loc), format!("add_string({:?}): {}", s, p.msg)),
+                    }
+                }
+                if let V::Bytes(bytes) = v {
+                    let mut h = new_basic();
+                    match guard("store", || h.add_byte_slice(bytes)) {
+                        Ok(Ok(a)) => {
+                            let _ = h.add_number(SimpleNumber::Integer(5));
+                            let got = readback(&h, a);
+                            if !same(&got, v) {
+                                ctx.fail("add_byte_slice-reads-back-differently".to_string(), format!("add_byte_slice({:?}) at {} reads back as {}", bytes, a, got));
+                            }
+                        }
+                        Ok(Err(e)) => ctx.fail("add_byte_slice-fails".to_string(), format!("add_byte_slice({:?}): {}", bytes, e)),
+                        Err(p) => ctx.fail(format!("store-panic@{}", p.loc), format!("add_byte_slice({:?}): {}", bytes, p.msg)),
+                    }
+                }
+                let mut d = new_basic();
+                // something before and after it, so that lengths that are too long or too short read a neighbour
+                let before = d.add_number(SimpleNumber::Integer(-77));
+                match guard("store", || d.push_object_to_data_block(obj)) {
+                    Err(p) => ctx.fail(format!("store-panic@{}", p.loc), format!("push_object_to_data_block({}): {}", v, p.msg)),
+                    Ok(Err(e)) => ctx.fail(format!("object-not-addable:{}", v.type_name()), format!("push_object_to_data_block({}): {}", v, e)),
+                    Ok(Ok(a)) => {
+                        let after = d.parse_add_char_list("\"zz\"");
+                        let got = readback(&d, a);
+                        if !same(&got, v) {
+                            ctx.fail(format!("object-reads-back-differently:{}", v.type_name()), format!("push_object_to_data_block({}) at {} reads back as {}", v, a, got));
+                        }
+                        if let (Ok(b), Ok(c)) = (before, after) {
+                            if !same(&readback(&d, b), &V::Int(-77)) || !same(&readback(&d, c), &text("zz")) {
+                                ctx.fail("object-disturbs-neighbours".to_string(), format!("values stored before / after {} changed", v));
+                            }
+                        }
+                    }
+                }
+            }
+            (5, Input::Index(i)) => {
                 // values made out of stored values (symbol lists by merging, concatenations, pairs, ranges, slices): an
                 // operation that makes a new value must not change what an address handed out earlier reads back as
                 let ops = index_to_derived(*i, tier.pick(5, 6));
@@ -677,7 +806,7 @@ impl Check for C15Check {
                     ctx.nontrivial(fnv(format!("derived{}", i).as_bytes()));
                 }
             }
-            (5, Input::Index(i)) => {
+            (6, Input::Index(i)) => {
                 // many distinct constants of one kind (or a mix) in one object, then every one of them again
                 let kind = LARGE_KINDS[(*i as usize) % LARGE_KINDS.len()];
                 let n = LARGE_SIZES[(*i as usize) / LARGE_KINDS.len()];
